@@ -99,16 +99,14 @@ Section Hist.
   Notation cached := (cached f).
   Notation setup_g := (setup_g f).
 
-  (* the invariant: a cached set-up holds the actions generated from the parser's OWN settings for the
-     dataclasses it covered, its recorded subgroup choices and its recorded defaults *)
+  (* the invariant: a cached set-up is THE set-up of the parser's own settings for the dataclasses it covered, its recorded
+     subgroup choices and its recorded defaults (conflict resolution, add-argument loop and all) *)
   Definition pinv (p : pstate) : Prop :=
     (p_added p = true -> p_cfgarg p = true) /\
     match p_setup p with
     | None => True
-    | Some su => su_acts su = build (p_cfg p) (firstn (su_n su) (p_adds p)) (su_chosen su) (su_fr su)
+    | Some su => setup_core (p_cfg p) (p_cfg p) (p_cr p) (firstn (su_n su) (p_adds p)) (su_chosen su) (su_fr su) = Ok su
                  /\ su_n su <= List.length (p_adds p)
-                 /\ clash (p_cr p) (top_opts (p_cfg p) (firstn (su_n su) (p_adds p))) = false
-                 /\ clash (p_cr p) (acts_opts (su_acts su)) = false
     end.
   Definition Inv (s : state) : Prop := forall i p, slot_get (st_slots s) i = Some p -> pinv p.
 
@@ -118,35 +116,44 @@ Section Hist.
   Lemma cached_some p su : cached p = Some su -> p_setup p = Some su.
   Proof. unfold History.cached. destruct (p_setup p); [destruct (setup_cached f)|]; congruence. Qed.
 
-  Lemma setup_g_own g p : b_spelling f g p = true -> cached p = None -> gl_cfg (setup_g g p) = p_cfg p.
+  Lemma res_cfg_own g p : b_spelling f g p = true -> cached p = None -> res_cfg f g p = p_cfg p.
   Proof.
-    unfold b_spelling, History.setup_g, is_cached. intros H Hc. rewrite Hc in *.
+    unfold b_spelling, res_cfg, is_cached. intros H Hc. rewrite Hc in H.
+    destruct (reasserts f && reassert_first f); [reflexivity|]. cbn in H. apply cfg_eqb_eq. exact H.
+  Qed.
+  Lemma build_cfg_own g p : b_spelling f g p = true -> cached p = None -> build_cfg f g p = p_cfg p.
+  Proof.
+    unfold b_spelling, build_cfg, is_cached. intros H Hc. rewrite Hc in H.
     destruct (reasserts f); [reflexivity|]. cbn in H. apply cfg_eqb_eq. exact H.
   Qed.
-
-  Lemma setup_g_reg g p : gl_reg (setup_g g p) = gl_reg g.
-  Proof. unfold History.setup_g. destruct (cached p); [reflexivity|]. destruct (reasserts f); reflexivity. Qed.
 
   (* under the two set-up clauses, set-up sees exactly the parser's own definition *)
   Lemma setup_in_own g p live args :
     b_spelling f g p = true -> b_registry f g p = true -> cached p = None ->
-    setup_in f (setup_g g p) p live args = do_setup (p_cfg p) (p_cr p) (p_adds p) live args.
+    setup_in f g p live args = do_setup (p_cfg p) (p_cfg p) (p_cr p) (p_adds p) live args.
   Proof.
-    intros Hs Hr Hc. unfold setup_in. rewrite (setup_g_own g p Hs Hc), setup_g_reg. f_equal.
+    intros Hs Hr Hc. unfold setup_in. rewrite (res_cfg_own g p Hs Hc), (build_cfg_own g p Hs Hc). f_equal.
     unfold b_registry, is_cached in Hr. rewrite Hc in Hr.
     destruct (reg_by_class f) eqn:Hk; [apply resolve_by_class|].
     cbn in Hr. apply resolve_fixed. exact Hr.
   Qed.
 
-  Lemma do_setup_inv g cr adds live args su :
-    do_setup g cr adds live args = Ok su ->
-    su_acts su = build g (firstn (su_n su) adds) (su_chosen su) (su_fr su) /\ su_n su <= List.length adds
-    /\ clash cr (top_opts g (firstn (su_n su) adds)) = false /\ clash cr (acts_opts (su_acts su)) = false.
+  Lemma setup_core_fields gr gb cr adds ch live su :
+    setup_core gr gb cr adds ch live = Ok su -> su_chosen su = ch /\ su_fr su = live /\ su_n su = List.length adds.
   Proof.
-    unfold do_setup. destruct (clash cr (top_opts g adds)) eqn:H1; [discriminate|].
-    destruct (choose g adds args) as [ch|e]; [|discriminate].
-    destruct (clash cr (acts_opts (build g adds ch live))) eqn:H2; [discriminate|].
-    intro H. injection H as <-. cbn. rewrite firstn_all. repeat split; try assumption. apply Nat.le_refl.
+    unfold setup_core. destruct (pre gr cr adds); [|discriminate].
+    destruct (resolve_fws gr cr _); [|discriminate].
+    destruct (str_nodupb _); [|discriminate]. intro H. injection H as <-. repeat split.
+  Qed.
+
+  Lemma do_setup_inv g cr adds live args su :
+    do_setup g g cr adds live args = Ok su ->
+    setup_core g g cr (firstn (su_n su) adds) (su_chosen su) (su_fr su) = Ok su /\ su_n su <= List.length adds.
+  Proof.
+    unfold do_setup. destruct (pre g cr adds) as [fs1|e]; [|discriminate].
+    destruct (choose g (pf_of fs1) adds args) as [ch|e]; [|discriminate].
+    intro H. destruct (setup_core_fields _ _ _ _ _ _ _ H) as (-> & -> & ->).
+    rewrite firstn_all. split; [exact H | apply Nat.le_refl].
   Qed.
 
   (* what a failed set-up leaves satisfies the invariant: the parser as it was, or (flag set first) an empty set-up *)
@@ -154,14 +161,14 @@ Section Hist.
     pinv p ->
     match after_failure f p live with
     | None => True
-    | Some su => su_acts su = build (p_cfg p) (firstn (su_n su) (p_adds p)) (su_chosen su) (su_fr su)
+    | Some su => setup_core (p_cfg p) (p_cfg p) (p_cr p) (firstn (su_n su) (p_adds p)) (su_chosen su) (su_fr su) = Ok su
                  /\ su_n su <= List.length (p_adds p)
-                 /\ clash (p_cr p) (top_opts (p_cfg p) (firstn (su_n su) (p_adds p))) = false
-                 /\ clash (p_cr p) (acts_opts (su_acts su)) = false
     end.
   Proof.
     intros [_ Hs]. unfold after_failure. destruct (done_after_work f); [exact Hs|].
-    cbn. unfold clash. cbn. rewrite !andb_false_r. repeat split. apply Nat.le_0_l.
+    cbn [stuck_setup su_n su_chosen su_fr firstn]. split; [|apply Nat.le_0_l].
+    unfold setup_core, pre, resolve_fws, resolve_gen, loop_gen. cbn [top_fws flat_map].
+    destruct (p_cr p); reflexivity.
   Qed.
 
   Lemma added_ok p : pinv p -> (p_added p || p_cfgarg p) = true -> p_cfgarg p = true.
@@ -176,7 +183,7 @@ Section Hist.
     pinv p -> b_spelling f g p = true -> b_registry f g p = true -> pinv (snd (fst (parse_step g p argv))).
   Proof.
     intros Hp Hb Hr. pose proof Hp as [Ha Hs]. unfold History.parse_step.
-    destruct (prep p argv) as [args [rl live1]].
+    destruct (prep g p argv) as [args [rl live1]].
     destruct rl as [u|e]; [|psimpl; split; [exact Ha | exact Hs]].
     destruct (p_cfgarg p && p_added p && cfgarg_every_parse f); [psimpl; split; [exact Ha | exact Hs]|].
     destruct (cached p) as [su|] eqn:Hc.
@@ -184,7 +191,7 @@ Section Hist.
       destruct (History.parse_acts true (main_acts (p_added p || p_cfgarg p) su) _ args) as [r cnt1].
       psimpl. split; [intro H; exact (added_ok p Hp H)|]. rewrite Hc in Hs. exact Hs.
     - rewrite (setup_in_own g p live1 args Hb Hr Hc).
-      destruct (do_setup (p_cfg p) (p_cr p) (p_adds p) live1 args) as [su|e] eqn:Hd.
+      destruct (do_setup (p_cfg p) (p_cfg p) (p_cr p) (p_adds p) live1 args) as [su|e] eqn:Hd.
       + destruct (History.parse_acts true (main_acts (p_added p || p_cfgarg p) su) _ args) as [r cnt1].
         psimpl. split; [intro H; exact (added_ok p Hp H)|]. eapply do_setup_inv; exact Hd.
       + psimpl. split; [intro H; exact (added_ok p Hp H) | exact (after_failure_inv p live1 Hp)].
@@ -197,7 +204,7 @@ Section Hist.
     destruct (cached p) as [su|] eqn:Hc.
     - apply cached_some in Hc. psimpl. split; [exact Ha|]. rewrite Hc in Hs. exact Hs.
     - rewrite (setup_in_own g p (p_live p) [] Hb Hr Hc).
-      destruct (do_setup (p_cfg p) (p_cr p) (p_adds p) (p_live p) []) as [su|e] eqn:Hd; psimpl.
+      destruct (do_setup (p_cfg p) (p_cfg p) (p_cr p) (p_adds p) (p_live p) []) as [su|e] eqn:Hd; psimpl.
       + split; [exact Ha|]. eapply do_setup_inv; exact Hd.
       + split; [exact Ha | exact (after_failure_inv p (p_live p) Hp)].
   Qed.
@@ -218,11 +225,11 @@ Section Hist.
     - destruct (slot_get (st_slots s) i) as [p|] eqn:Hg; [|exact HI]. cbn.
       pose proof (HI i p Hg) as [Ha Hs].
       apply set_inv; [exact HI|]. split; [exact Ha|]. cbn.
-      destruct (p_setup p) as [su|]; [|exact I]. destruct Hs as (Hs & Hn & Hc1 & Hc2).
+      destruct (p_setup p) as [su|]; [|exact I]. destruct Hs as (Hs & Hn).
       assert (Hfn : firstn (su_n su) (p_adds p ++ [(d, dest)])%list = firstn (su_n su) (p_adds p)).
       { rewrite firstn_app. replace (su_n su - List.length (p_adds p)) with 0 by lia.
         cbn. rewrite app_nil_r. reflexivity. }
-      rewrite Hfn. repeat split; try assumption. rewrite app_length. cbn. lia.
+      rewrite Hfn. split; [exact Hs|]. rewrite app_length. cbn. lia.
     - destruct (slot_get (st_slots s) i) as [p|] eqn:Hg; [|exact HI].
       cbn in Hb. rewrite Hg in Hb.
       assert (Hsp : b_spelling f (st_g s) p = true /\ b_registry f (st_g s) p = true).
@@ -242,30 +249,43 @@ Section Hist.
   Qed.
 
   (* ---------- a benign parse answers what a fresh interpreter answers ---------- *)
-  Lemma prep_new p argv :
-    b_defaults f p = true -> prep p argv = prep (new_p (def_of p)) argv.
+  Lemma cached_new d : cached (new_p d) = None.
+  Proof. reflexivity. Qed.
+
+  Lemma prep_new g p argv :
+    b_defaults f p = true -> b_rootmode f g p = true -> b_wrappers f p = true ->
+    prep g p argv = prep (mkglob (p_cfg p) []) (new_p (def_of p)) argv.
   Proof.
-    unfold b_defaults, History.prep. cbn [new_p def_of p_live p_cfgarg df_cfgarg].
-    intro H. destruct (defaults_persist f); [|reflexivity].
-    cbn in H. destruct (p_live p); [reflexivity | discriminate].
+    unfold b_defaults, b_rootmode, b_wrappers, History.prep.
+    cbn [new_p def_of p_live p_cfgarg p_adds p_cfg df_cfgarg df_adds df_cfg].
+    intros H Hm Hw.
+    assert (Hl : (if defaults_persist f then p_live p else []) = (if defaults_persist f then @nil (string * string) else [])).
+    { destruct (defaults_persist f); [|reflexivity]. cbn in H. destruct (p_live p); [reflexivity | discriminate]. }
+    rewrite Hl.
+    destruct (p_cfgarg p) eqn:Hca; [|reflexivity].
+    cbn [negb orb] in Hm, Hw.
+    assert (Hr : reroots f g p = reroots f (mkglob (p_cfg p) []) (new_p (def_of p))).
+    { unfold reroots, nwr. rewrite cached_new. cbn [new_p def_of p_adds p_cfg df_adds df_cfg gl_cfg].
+      apply Nat.eqb_eq in Hw. fold (nwr f p). rewrite Hw. f_equal.
+      destruct (defaults_own_mode f); [reflexivity|]. cbn in Hm.
+      destruct (nm (gl_cfg g)), (nm (p_cfg p)); try reflexivity; discriminate. }
+    rewrite Hr. reflexivity.
   Qed.
 
   Lemma if_same (b : bool) (x : counters) : (if b then x else x) = x.
   Proof. destruct b; reflexivity. Qed.
 
-  Lemma cached_new d : cached (new_p d) = None.
-  Proof. reflexivity. Qed.
-
   Lemma parse_obs_fresh g p argv :
     pinv p ->
     b_spelling f g p = true -> b_registry f g p = true -> b_cfgarg f p = true -> b_tuple f p = true ->
-    b_frozen f ftbl p argv = true -> b_defaults f p = true -> b_cfgattr f p = true ->
+    b_frozen f ftbl g p argv = true -> b_defaults f p = true -> b_cfgattr f p = true ->
+    b_rootmode f g p = true -> b_wrappers f p = true ->
     snd (parse_step g p argv) = fresh (def_of p) argv.
   Proof.
-    intros Hp Hsp Hrg Hcf Htu Hfr Hde Hca. pose proof Hp as [Ha Hs].
+    intros Hp Hsp Hrg Hcf Htu Hfr Hde Hca Hrm Hwr. pose proof Hp as [Ha Hs].
     unfold History.fresh. change (df_cfg (def_of p)) with (p_cfg p).
     set (q := new_p (def_of p)). set (g0 := mkglob (p_cfg p) []).
-    assert (Hprep : prep q argv = prep p argv) by (symmetry; apply prep_new; exact Hde).
+    assert (Hprep : prep g0 q argv = prep g p argv) by (symmetry; apply prep_new; assumption).
     assert (Hq1 : p_cfg q = p_cfg p) by reflexivity.
     assert (Hq2 : p_cfgarg q = p_cfgarg p) by reflexivity.
     assert (Hq8 : p_cr q = p_cr p) by reflexivity.
@@ -278,17 +298,15 @@ Section Hist.
     { unfold cfg_default. rewrite Hq6. cbn [andb]. unfold b_cfgattr in Hca.
       destruct (cfgarg_refreshed f); [rewrite andb_false_r; reflexivity|].
       cbn in Hca. apply negb_true_iff in Hca. rewrite Hca. reflexivity. }
-    (* the fresh interpreter's set-up sees the definition itself: its registry is empty *)
-    assert (Hown : forall live args, setup_in f (setup_g g0 q) q live args
-                                     = do_setup (p_cfg p) (p_cr p) (p_adds p) live args).
-    { intros live args. unfold setup_in. rewrite setup_g_reg. unfold History.setup_g. rewrite Hq7, Hq1, Hq8, Hq3.
-      replace (gl_cfg (if reasserts f then mkglob (p_cfg p) (gl_reg g0) else g0)) with (p_cfg p)
-        by (destruct (reasserts f); reflexivity).
-      cbn [g0 gl_reg]. rewrite resolve_nil. reflexivity. }
+    (* the fresh interpreter's set-up sees the definition itself: its registry is empty, the settings are its own *)
+    assert (Hown : forall live args, setup_in f g0 q live args
+                                     = do_setup (p_cfg p) (p_cfg p) (p_cr p) (p_adds p) live args).
+    { intros live args. unfold setup_in, res_cfg, build_cfg. rewrite Hq1, Hq8, Hq3. cbn [g0 gl_cfg gl_reg].
+      rewrite resolve_nil. destruct (reasserts f && reassert_first f), (reasserts f); reflexivity. }
     unfold History.parse_step.
     rewrite Hprep, Hq1, Hq2, Hq8, Hq3, Hq4, Hq5, Hq9, Hq6, Hq7.
     unfold b_frozen in Hfr.
-    destruct (prep p argv) as [args [rl live1]].
+    destruct (prep g p argv) as [args [rl live1]].
     rewrite (Hown live1 args).
     clearbody q g0. clear Hprep Hq1 Hq2 Hq8 Hq3 Hq4 Hq5 Hq6 Hq7 Hq9 Hown.
     assert (Hc0 : (if tuple_counter_persists f then p_cnt p else []) = []).
@@ -304,18 +322,18 @@ Section Hist.
     rewrite Hadd.
     destruct (cached p) as [su|] eqn:Hc.
     - (* cached set-up: it is the one this call would have made *)
-      apply cached_some in Hc. rewrite Hc in Hs. destruct Hs as (Hacts & Hle & Hc1 & Hc2).
+      apply cached_some in Hc. rewrite Hc in Hs. destruct Hs as (Hcore & Hle).
       apply andb_true_iff in Hfr as [Hfr Hlive]. apply andb_true_iff in Hfr as [Hn Hch].
       apply Nat.eqb_eq in Hn. apply kv_eqb_eq in Hlive.
-      assert (Hdo : do_setup (p_cfg p) (p_cr p) (p_adds p) live1 args = Ok su).
-      { unfold do_setup. destruct (choose (p_cfg p) (p_adds p) args) as [ch|e]; [|discriminate].
-        apply kv_eqb_eq in Hch. destruct su as [acts chs fr n]. cbn [su_n su_acts su_chosen su_fr] in *. subst.
-        rewrite firstn_all in *. rewrite Hc1, Hc2. reflexivity. }
+      assert (Hdo : do_setup (p_cfg p) (p_cfg p) (p_cr p) (p_adds p) live1 args = Ok su).
+      { unfold do_setup. destruct (pre (p_cfg p) (p_cr p) (p_adds p)) as [fs1|e]; [|discriminate].
+        destruct (choose (p_cfg p) (pf_of fs1) (p_adds p) args) as [ch|e]; [|discriminate].
+        apply kv_eqb_eq in Hch. subst ch live1. rewrite Hn, firstn_all in Hcore. exact Hcore. }
       rewrite Hdo.
       destruct (History.parse_acts true (main_acts (false || p_cfgarg p) su) [] args) as [r cnt1].
       reflexivity.
     - rewrite (setup_in_own g p live1 args Hsp Hrg Hc).
-      destruct (do_setup (p_cfg p) (p_cr p) (p_adds p) live1 args) as [su|e]; [|reflexivity].
+      destruct (do_setup (p_cfg p) (p_cfg p) (p_cr p) (p_adds p) live1 args) as [su|e]; [|reflexivity].
       destruct (History.parse_acts true (main_acts (false || p_cfgarg p) su) [] args) as [r cnt1].
       reflexivity.
   Qed.
@@ -335,11 +353,13 @@ Section Hist.
         cbn [obs_from nth_error]. f_equal.
         cbn [History.step]. rewrite Hg.
         cbn [op_benign] in Hb1. rewrite Hg in Hb1.
-        apply andb_true_iff in Hb1 as [Hb1 H6].
-        apply andb_true_iff in Hb1 as [Hb1 H5]. apply andb_true_iff in Hb1 as [Hb1 H4].
-        apply andb_true_iff in Hb1 as [Hb1 H3]. apply andb_true_iff in Hb1 as [H1 H2].
-        apply andb_true_iff in H1 as [H1 H1r].
-        pose proof (parse_obs_fresh (st_g s) p argv (HI i p Hg) H1 H1r H2 H3 H4 H5 H6) as He.
+        repeat match goal with H : (_ && _)%bool = true |- _ => apply andb_true_iff in H as [? ?] end.
+        match goal with
+        | A : b_spelling f _ p = true, B : b_registry f _ p = true, C : b_cfgarg f p = true, D : b_tuple f p = true,
+          E : b_frozen f ftbl _ p argv = true, F : b_defaults f p = true, G : b_cfgattr f p = true,
+          H : b_rootmode f _ p = true, I : b_wrappers f p = true |- _ =>
+            pose proof (parse_obs_fresh (st_g s) p argv (HI i p Hg) A B C D E F G H I) as He
+        end.
         destruct (parse_step (st_g s) p argv) as [[g' p'] rr]. cbn in He. cbn. rewrite He. reflexivity.
       + cbn [nth_error] in Hk. cbn [firstn History.run_ops] in Hg. cbn [obs_from nth_error].
         eapply IH; [apply step_inv; eassumption | exact Hb2 | exact Hk | exact Hg].
@@ -372,15 +392,15 @@ Section Hist.
     done_after_work f = true -> p_setup p = None ->
     match p_setup (snd (fst (parse_step g p argv))) with
     | None => True
-    | Some su => exists live args, setup_in f (setup_g g p) p live args = Ok su
+    | Some su => exists live args, setup_in f g p live args = Ok su
     end.
   Proof.
     intros Hd Hn. assert (Hc : cached p = None) by (unfold History.cached; rewrite Hn; reflexivity).
-    unfold History.parse_step. destruct (prep p argv) as [args [rl live1]].
+    unfold History.parse_step. destruct (prep g p argv) as [args [rl live1]].
     destruct rl as [u|e]; [|psimpl; rewrite Hn; exact I].
     destruct (p_cfgarg p && p_added p && cfgarg_every_parse f); [psimpl; rewrite Hn; exact I|].
     rewrite Hc.
-    destruct (setup_in f (setup_g g p) p live1 args) as [su|e] eqn:Hdo.
+    destruct (setup_in f g p live1 args) as [su|e] eqn:Hdo.
     - destruct (History.parse_acts true (main_acts (p_added p || p_cfgarg p) su) _ args) as [r cnt1].
       psimpl. exists live1, args. exact Hdo.
     - psimpl. unfold after_failure. rewrite Hd, Hn. exact I.
@@ -390,12 +410,12 @@ Section Hist.
     done_after_work f = true -> p_setup p = None ->
     match p_setup (snd (fst (help_step g p))) with
     | None => True
-    | Some su => setup_in f (setup_g g p) p (p_live p) [] = Ok su
+    | Some su => setup_in f g p (p_live p) [] = Ok su
     end.
   Proof.
     intros Hd Hn. assert (Hc : cached p = None) by (unfold History.cached; rewrite Hn; reflexivity).
     unfold History.help_step. rewrite Hc.
-    destruct (setup_in f (setup_g g p) p (p_live p) []) as [su|e] eqn:Hdo; psimpl.
+    destruct (setup_in f g p (p_live p) []) as [su|e] eqn:Hdo; psimpl.
     - reflexivity.
     - unfold after_failure. rewrite Hd, Hn. exact I.
   Qed.
@@ -404,11 +424,8 @@ Section Hist.
      its parser in the same state *)
   Lemma setup_in_reg_irrelevant c r1 r2 p live args :
     reg_by_class f = true ->
-    setup_in f (setup_g (mkglob c r1) p) p live args = setup_in f (setup_g (mkglob c r2) p) p live args.
-  Proof.
-    intro H. unfold setup_in. rewrite H, !resolve_by_class. f_equal.
-    unfold History.setup_g. destruct (cached p); [reflexivity|]. destruct (reasserts f); reflexivity.
-  Qed.
+    setup_in f (mkglob c r1) p live args = setup_in f (mkglob c r2) p live args.
+  Proof. intro H. unfold setup_in. rewrite H, !resolve_by_class. reflexivity. Qed.
 
   Lemma registry_unobservable c r1 r2 p argv :
     reg_by_class f = true ->
@@ -416,14 +433,15 @@ Section Hist.
     /\ snd (fst (parse_step (mkglob c r1) p argv)) = snd (fst (parse_step (mkglob c r2) p argv)).
   Proof.
     intro H. unfold History.parse_step.
-    destruct (prep p argv) as [args [rl live1]].
+    change (prep (mkglob c r1) p argv) with (prep (mkglob c r2) p argv).
+    destruct (prep (mkglob c r2) p argv) as [args [rl live1]].
     destruct rl as [u|e]; [|split; reflexivity].
     destruct (p_cfgarg p && p_added p && cfgarg_every_parse f); [split; reflexivity|].
     rewrite (setup_in_reg_irrelevant c r1 r2 p live1 args H).
     destruct (cached p) as [su|].
     - destruct (History.parse_acts true (main_acts (p_added p || p_cfgarg p) su) _ args) as [r cnt1].
       split; reflexivity.
-    - destruct (setup_in f (setup_g (mkglob c r2) p) p live1 args) as [su|e]; [|split; reflexivity].
+    - destruct (setup_in f (mkglob c r2) p live1 args) as [su|e]; [|split; reflexivity].
       destruct (History.parse_acts true (main_acts (p_added p || p_cfgarg p) su) _ args) as [r cnt1].
       split; reflexivity.
   Qed.
@@ -437,20 +455,21 @@ Section Hist.
   Lemma benign_when_repaired : all_repaired f = true -> forall ops s, benign_from f ftbl s ops = true.
   Proof.
     unfold all_repaired. intro H.
-    apply andb_true_iff in H as [H H7].
-    apply andb_true_iff in H as [H H6].
-    apply andb_true_iff in H as [H H5]. apply andb_true_iff in H as [H H4].
-    apply andb_true_iff in H as [H H3]. apply andb_true_iff in H as [H1 H2].
-    apply negb_true_iff in H2, H3, H4, H5.
+    repeat match goal with H : (_ && _)%bool = true |- _ => apply andb_true_iff in H as [? ?] end.
+    repeat match goal with H : negb _ = true |- _ => apply negb_true_iff in H end.
     induction ops as [|o r IH]; intro s; [reflexivity|]. cbn [benign_from]. rewrite IH, andb_true_r.
     assert (Hnc : forall p, cached p = None).
-    { intro p. unfold History.cached. rewrite H3. destruct (p_setup p); reflexivity. }
-    destruct o as [i c ca | i d dest | i argv | i | i]; cbn [op_benign]; try reflexivity.
+    { intro p. unfold History.cached.
+      match goal with H : setup_cached f = false |- _ => rewrite H end. destruct (p_setup p); reflexivity. }
+    assert (Hw : forall p, nwr f p = List.length (p_adds p)) by (intro p; unfold nwr; rewrite Hnc; reflexivity).
+    destruct o as [i c cr ca | i d dest | i argv | i | i]; cbn [op_benign]; try reflexivity.
     - destruct (slot_get (st_slots s) i) as [p|]; [|reflexivity].
-      unfold b_spelling, b_registry, b_cfgarg, b_tuple, b_frozen, b_defaults, b_cfgattr. rewrite H1, H2, H4, H5, H6, H7, (Hnc p).
-      cbn. rewrite !andb_false_r. reflexivity.
+      unfold b_spelling, b_registry, b_cfgarg, b_tuple, b_frozen, b_defaults, b_cfgattr, b_rootmode, b_wrappers.
+      rewrite (Hnc p), (Hw p), Nat.eqb_refl.
+      repeat match goal with H : _ f = _ |- _ => rewrite H end.
+      cbn. rewrite ?andb_false_r, ?orb_true_r. reflexivity.
     - destruct (slot_get (st_slots s) i) as [p|]; [|reflexivity].
-      unfold b_spelling, b_registry. rewrite H1, H6. reflexivity.
+      unfold b_spelling, b_registry. repeat match goal with H : _ f = _ |- _ => rewrite H end. reflexivity.
   Qed.
 End Hist.
 
@@ -475,7 +494,9 @@ Definition K4 := mkdc "K4" [mkf "my_x" FInt "int:1";
   mkf "model" (FSub [mkalt "ma" "MA" "lr_a" "int:3"; mkalt "mb" "MB" "size_b" "int:5"] "ma") ""].
 Definition L1 := mkdc "L1" [mkf "other_y" FInt "int:2"].
 Definition L3 := mkdc "L3" [mkf "my_x" FInt "int:5"].
-Definition FILES : list (string * kv) := [("c1.json", [("a.my_x", "int:7")]); ("c2.json", [("a.my_x", "int:8")])].
+Definition FILES : list (string * kv) :=
+  [("c1.json", [("a.my_x", "int:7")]); ("c2.json", [("a.my_x", "int:8")]); ("r1.json", [("my_x", "int:17")])].
+Definition cfg_noroot : cfg := mkcfg DUnderscore GFlat NWithoutRoot.
 Definition cfg_dash : cfg := mkcfg DDash GFlat NDefault.
 Definition cfg_nested : cfg := mkcfg DUnderscore GNested NDefault.
 
@@ -527,8 +548,8 @@ Definition ops_spelling : list op :=
   [Construct 0 cfg_dash CRAuto false; AddArgs 0 K1 "a"; Construct 1 init_cfg CRAuto false; Parse 0 ["--my-x"; "4"]].
 Theorem refuted_spelling : forall f, reasserts f = false -> ~ history_full f FILES.
 Proof.
-  intros [r c s t d w x k] H; cbn in H; subst r.
-  destruct c, s, t, d, w, k, x; refute_with ops_spelling 3 0 ["--my-x"; "4"].
+  intros [r rf dm c s t d w x k] H; cbn in H; subst r.
+  destruct c, s, t, d, w, k, x, rf, dm; refute_with ops_spelling 3 0 ["--my-x"; "4"].
 Qed.
 
 (* (#11) the second parse of a parser with a config-path argument re-adds --config_path *)
@@ -536,8 +557,8 @@ Definition ops_cfgarg : list op :=
   [Construct 0 init_cfg CRAuto true; AddArgs 0 K1 "a"; Parse 0 []; Parse 0 []].
 Theorem refuted_cfgarg : forall f, cfgarg_every_parse f = true -> ~ history_full f FILES.
 Proof.
-  intros [r c s t d w x k] H; cbn in H; subst c.
-  destruct r, s, t, d, w, k, x; refute_with ops_cfgarg 3 0 (@nil string).
+  intros [r rf dm c s t d w x k] H; cbn in H; subst c.
+  destruct r, s, t, d, w, k, x, rf, dm; refute_with ops_cfgarg 3 0 (@nil string).
 Qed.
 
 (* (#12) the tuple converter's counter is past the item types on the second parse *)
@@ -545,8 +566,8 @@ Definition ops_tuple : list op :=
   [Construct 0 init_cfg CRAuto false; AddArgs 0 K3 "a"; Parse 0 ["--pair"; "3"; "x"]; Parse 0 ["--pair"; "3"; "x"]].
 Theorem refuted_tuple : forall f, setup_cached f = true -> tuple_counter_persists f = true -> ~ history_full f FILES.
 Proof.
-  intros [r c s t d w x k] H1 H2; cbn in H1, H2; subst s t.
-  destruct r, c, d, w, k, x; refute_with ops_tuple 3 0 ["--pair"; "3"; "x"].
+  intros [r rf dm c s t d w x k] H1 H2; cbn in H1, H2; subst s t.
+  destruct r, c, d, w, k, x, rf, dm; refute_with ops_tuple 3 0 ["--pair"; "3"; "x"].
 Qed.
 
 (* (#13) the subgroup choice is frozen by the first argv ... *)
@@ -554,16 +575,16 @@ Definition ops_frozen_argv : list op :=
   [Construct 0 init_cfg CRAuto false; AddArgs 0 K4 "a"; Parse 0 ["--model"; "mb"]; Parse 0 ["--model"; "ma"]].
 Theorem refuted_frozen_by_argv : forall f, setup_cached f = true -> ~ history_full f FILES.
 Proof.
-  intros [r c s t d w x k] H; cbn in H; subst s.
-  destruct r, c, t, d, w, k, x; refute_with ops_frozen_argv 3 0 ["--model"; "ma"].
+  intros [r rf dm c s t d w x k] H; cbn in H; subst s.
+  destruct r, c, t, d, w, k, x, rf, dm; refute_with ops_frozen_argv 3 0 ["--model"; "ma"].
 Qed.
 (* ... or by print_help() *)
 Definition ops_frozen_help : list op :=
   [Construct 0 init_cfg CRAuto false; AddArgs 0 K4 "a"; PrintHelp 0; Parse 0 ["--model"; "mb"]].
 Theorem refuted_frozen_by_help : forall f, setup_cached f = true -> ~ history_full f FILES.
 Proof.
-  intros [r c s t d w x k] H; cbn in H; subst s.
-  destruct r, c, t, d, w, k, x; refute_with ops_frozen_help 3 0 ["--model"; "mb"].
+  intros [r rf dm c s t d w x k] H; cbn in H; subst s.
+  destruct r, c, t, d, w, k, x, rf, dm; refute_with ops_frozen_help 3 0 ["--model"; "mb"].
 Qed.
 
 (* (#5') defaults read from a config file by a call that failed are still there in the next call *)
@@ -571,8 +592,8 @@ Definition ops_defaults : list op :=
   [Construct 0 init_cfg CRAuto true; AddArgs 0 K1 "a"; Parse 0 ["--config_path"; "c1.json"; "nofile.json"]; Parse 0 []].
 Theorem refuted_defaults : forall f, defaults_persist f = true -> ~ history_full f FILES.
 Proof.
-  intros [r c s t d w x k] H; cbn in H; subst d.
-  destruct r, c, s, t, w, k, x; refute_with ops_defaults 3 0 (@nil string).
+  intros [r rf dm c s t d w x k] H; cbn in H; subst d.
+  destruct r, c, s, t, w, k, x, rf, dm; refute_with ops_defaults 3 0 (@nil string).
 Qed.
 
 (* (seeded C08-03) the done-flag set before the work: a set-up that raised (invalid subgroup key) is never redone *)
@@ -580,16 +601,16 @@ Definition ops_failed_setup : list op :=
   [Construct 0 init_cfg CRAuto false; AddArgs 0 K4 "a"; Parse 0 ["--model"; "zz"]; Parse 0 []].
 Theorem refuted_failed_setup : forall f, setup_cached f = true -> done_after_work f = false -> ~ history_full f FILES.
 Proof.
-  intros [r c s t d w x k] H1 H2; cbn in H1, H2; subst s w.
-  destruct r, c, t, d, k, x; refute_with ops_failed_setup 3 0 (@nil string).
+  intros [r rf dm c s t d w x k] H1 H2; cbn in H1, H2; subst s w.
+  destruct r, c, t, d, k, x, rf, dm; refute_with ops_failed_setup 3 0 (@nil string).
 Qed.
 (* ... likewise a ConflictResolutionError (NONE mode, two dataclasses sharing a field name): raised once, then gone *)
 Definition ops_failed_setup_cre : list op :=
   [Construct 0 init_cfg CRNone false; AddArgs 0 K1 "a"; AddArgs 0 L3 "b"; Parse 0 []; Parse 0 []].
 Theorem refuted_failed_setup_cre : forall f, setup_cached f = true -> done_after_work f = false -> ~ history_full f FILES.
 Proof.
-  intros [r c s t d w x k] H1 H2; cbn in H1, H2; subst s w.
-  destruct r, c, t, d, k, x; refute_with ops_failed_setup_cre 4 0 (@nil string).
+  intros [r rf dm c s t d w x k] H1 H2; cbn in H1, H2; subst s w.
+  destruct r, c, t, d, k, x, rf, dm; refute_with ops_failed_setup_cre 4 0 (@nil string).
 Qed.
 
 (* (seeded C08-04) the registry keyed by the qualified NAME: a second class with its own `Mode` enum is parsed with
@@ -603,8 +624,8 @@ Definition ops_registry : list op :=
    Construct 1 init_cfg CRAuto false; AddArgs 1 E2 "a"; Parse 1 ["--modes"; "SLOW"]].
 Theorem refuted_registry : forall f, reg_by_class f = false -> ~ history_full f FILES.
 Proof.
-  intros [r c s t d w x k] H; cbn in H; subst k.
-  destruct r, c, s, t, d, w, x; refute_with ops_registry 5 1 ["--modes"; "SLOW"].
+  intros [r rf dm c s t d w x k] H; cbn in H; subst k.
+  destruct r, c, s, t, d, w, x, rf, dm; refute_with ops_registry 5 1 ["--modes"; "SLOW"].
 Qed.
 
 (* (0277e53) the help-only --config_path action keeps the default of the call that added it: the `config_path` attribute of
@@ -614,6 +635,27 @@ Definition ops_cfgattr : list op :=
    Parse 0 ["--my_x"; "3"]].
 Theorem refuted_cfgattr : forall f, cfgarg_refreshed f = false -> ~ history_full f FILES.
 Proof.
-  intros [r c s t d w x k] H; cbn in H; subst x.
-  destruct r, c, s, t, d, w, k; refute_with ops_cfgattr 3 0 ["--my_x"; "3"].
+  intros [r rf dm c s t d w x k] H; cbn in H; subst x.
+  destruct r, c, s, t, d, w, k, rf, dm; refute_with ops_cfgattr 3 0 ["--my_x"; "3"].
+Qed.
+
+(* (seeded C03-06) the re-install of the parser's own settings placed AFTER conflict resolution: the resolver reads the
+   settings of the parser constructed last (NESTED: no clash to resolve), the add-argument loop then registers --my_x twice *)
+Definition ops_reinstall_late : list op :=
+  [Construct 0 init_cfg CRAuto false; AddArgs 0 K2 "a"; AddArgs 0 K2 "b"; Construct 1 cfg_nested CRAuto false; Parse 0 []].
+Theorem refuted_reinstall_late : forall f, reasserts f = true -> reassert_first f = false -> ~ history_full f FILES.
+Proof.
+  intros [r rf dm c s t d w x k] H1 H2; cbn in H1, H2; subst r rf.
+  destruct dm, c, s, t, d, w, x, k; refute_with ops_reinstall_late 4 0 (@nil string).
+Qed.
+
+(* (seeded C08-06) set_defaults looking at the CLASS-level nested mode: after another parser was constructed, the root-less
+   config file of a WITHOUT_ROOT parser is no longer re-rooted under its destination *)
+Definition ops_rootmode : list op :=
+  [Construct 0 cfg_noroot CRAuto true; AddArgs 0 K2 "a"; Construct 1 init_cfg CRAuto false;
+   Parse 0 ["--config_path"; "r1.json"]].
+Theorem refuted_rootmode : forall f, defaults_own_mode f = false -> ~ history_full f FILES.
+Proof.
+  intros [r rf dm c s t d w x k] H; cbn in H; subst dm.
+  destruct r, rf, c, s, t, d, w, x, k; refute_with ops_rootmode 3 0 ["--config_path"; "r1.json"].
 Qed.
